@@ -86,7 +86,8 @@ def generate(rng, opts):
     all_tags = [t for c in commits for t in c["tags"]]
     all_branches = [b for c in commits for b in c["branches"]]
     state = {
-        "collide_branch": rng.random() < 0.12,
+        # the user may own a branch that is named like the temporary one of any reference
+        "collide_branch": rng.choice([False] * 6 + ["v1", rng.choice(refs_pool)]) if (refs_pool := all_tags + all_branches + ["HEAD", "main"]) else False,
         "detached": rng.random() < 0.2,
         "dirty": rng.sample(["modified", "staged", "untracked", "ignored"], rng.choice([0, 0, 1, 2, 3])),
         "user_worktree": rng.choice([None, None, None, None, "live", "live", "live", "stale"]) if all_branches else None,
@@ -178,7 +179,11 @@ def build_repo(root, world):
             _git(repo, "branch", b, env=_env(i))
     st = world["state"]
     if st["collide_branch"]:
-        _git(repo, "branch", "griffe-v1", "HEAD~1", check=False)
+        import re as _re
+
+        ref = "v1" if st["collide_branch"] is True else st["collide_branch"]
+        norm = _re.sub(r"[-\s]+", "-", _re.sub(r"[^\w]+", "-", ref)).strip("-")
+        _git(repo, "branch", f"griffe-{norm}", "HEAD~1", check=False)
     if st["user_worktree"]:
         branches = [b for c in world["commits"] for b in c["branches"]]
         wt = os.path.join(root, "user-wt")
